@@ -12,6 +12,7 @@ import MambaVerif.Model.ClassOrder
 import MambaVerif.Model.Pipeline
 import MambaVerif.Model.Diag
 import MambaVerif.Model.ScopeWire
+import MambaVerif.Model.CallConf
 
 open MV
 
@@ -55,6 +56,7 @@ def handle (mode : String) (payload : String) : String :=
       | none => "bad core"
     | none => "bad sexp"
   | "scope" => MV.SL.scopeRequest payload
+  | "callconf" => callConfRequest payload
   | "render" =>
     -- same payload as the harness: `<haspos> l1 c1 l2 c2 <hex msg> <hex path|-> <hex source|-> <n> (l1 c1 l2 c2 <hex msg>)*`
     let ws := (payload.splitOn " ")
